@@ -303,6 +303,17 @@ def trims(run, m, F, E, L):
                 if d.startswith('ST::string::string()') and len(st.frames) == 1:
                     st.ev('res-empty', inst)
                     return [(st, None)]
+                if d in ('strchr', 'index') and len(args) >= 2:
+                    # membership by the C library: strchr(set, unit) also finds the set's own terminator, so a NUL unit "belongs" to
+                    # every set - recorded so that the walk rule can ask whether the unit tested may be NUL on that path
+                    s2 = I.fork(st)
+                    st.ev('member', inst, args[0], None, args[1], True, 'strchr')
+                    s2.ev('member', inst, args[0], None, args[1], False, 'strchr')
+                    if isinstance(args[1], IntV):
+                        u_ = I.as_u(s2, args[1])
+                        if u_ is not None:
+                            s2.assume_ne0(u_)
+                    return [(st, I.fresh_ptr(st, 'hit')), (s2, NULL)]
                 return None
             I = Interp(m, F, E, SliceHooks(m, stop))
             st = State()
@@ -326,6 +337,19 @@ def trims(run, m, F, E, L):
                 nwalk += 1
                 if mem[-1][5] is not True:
                     w_p.append('a walk moves on although the unit it tested last is not in the character set')
+                for e in mem:
+                    if len(e) > 6 and e[6] == 'strchr' and e[5] is True and isinstance(e[4], IntV):
+                        # found by strchr: the unit is in the set - or it is NUL.  A NUL unit inside the string is not a member
+                        uu = I.as_u(s2, e[4])
+                        if uu is not None and s2.is_eq0(uu) is not False:
+                            s3 = s2.clone()
+                            if s3.assume_eq0(uu):
+                                env = s3.find_model([uu, s], lambda v: v[0] % 256 == 0 and v[1] >= 1)
+                                if env is not None:
+                                    w_p.append('membership is decided by strchr(set, unit), which also finds the terminator of the set: a walk moves on over '
+                                               'a NUL unit of the string as if it belonged to the set (every set); witness %s' % own.fmt_env(env))
+                                else:
+                                    w_u.append('membership by strchr(set, unit): whether the unit may be NUL on this path is not decided')
                 for e in mem:
                     if not (isinstance(e[2], PtrV) and isinstance(cs, PtrV) and e[2].obj == cs.obj and s2.is_eq0(e[2].off - cs.off) is True):
                         w_u.append('the membership test is not against the character set of the call')
